@@ -301,6 +301,16 @@ def run_model(chk, side, thorough):
         shutil.rmtree(wd, ignore_errors=True)
 
 
+def sanity_model(chk):
+    """vacuity: the octet-string grid must contain frames that tell Annex J from the named deviation"""
+    files, cfg = mc_cfg("Dec", False)
+    cfg = cfg.replace("INVARIANT DecTotal", "INVARIANT SanityLenientEqualsStrict\nINVARIANT DecTotal")
+    res = tlc.run_tlc("MCgen_BVLL_Dec", cfg_text=cfg, files=files, timeout=600, name="MC_BVLL/sanity")
+    if res["error"] != "SanityLenientEqualsStrict":
+        tlc.machinery_failure("sanity: SanityLenientEqualsStrict should be violated, got %r\n%s" % (res["error"], res["output"][-1500:]))
+    chk.extra.setdefault("sanity", []).append("Dec grid distinguishes Dec from DecLenient (SanityLenientEqualsStrict violated as expected)")
+
+
 # ---- R: spec -> code ------------------------------------------------------------------------------------------
 def hang(chk, what, replay):
     HANGS[0] += 1
@@ -638,9 +648,13 @@ def record_services(chk, rng, n, obs):
 
     def call(fn, *a, **kw):
         # an exception escaping a service here is not by itself a clause of C09: recorded as a deviation
+        if HANGS[0] >= 3:
+            return None
         try:
             with watchdog(10):
                 return fn(*a, **kw)
+        except Hang:
+            hang(chk, "B/IP service scenario: " + getattr(fn, "__qualname__", str(fn)), {"kind": "services", "label": "hang"})
         except Exception as e:
             obs["service_scenario_exceptions"] += 1
             chk.deviation({"what": "exception in the B/IP service scenario", "call": getattr(fn, "__qualname__", str(fn)),
@@ -785,6 +799,10 @@ def validate(chk, recs, label, obs, timeout=1500):
             chk.monitor("OctetsEqualSpec")
             sig = {"fn": t["fn"], "path": t["label"]}
             det = {"frame": hexs(t["oct"]), "datagram_octets": len(t["oct"]), "must_be_function": t["fn"], "must_carry": _short(t["val"], 200)}
+        elif k == "raw":
+            rp = {"kind": "raw", "fn": t["fn"], "body": t["body"]}
+            sig = {"fn": "raw", "path": "BVLPDU"}
+            det = {"fn": t["fn"], "body": hexs(t["body"]), "encode": t["enc"], "decode": _short(t["back"])}
         else:
             rp = {"kind": "dec", "oct": t["oct"]}
             o = t["oct"]
@@ -840,6 +858,7 @@ def main(tier, seed):
     stale_length(chk)
     # D + R, decode side
     dvecs = run_model(chk, "Dec", thorough)
+    sanity_model(chk)
     for v in dvecs:
         replay_dec_vector(chk, v, obs)
     chk.extra["dec_vectors"] = len(dvecs)
@@ -848,8 +867,8 @@ def main(tier, seed):
         chk.sample({"case": v["d"], "octets": hexs(v["oct"]), "spec_says": v["dec"]})
     del dvecs
     # T
-    recs = record_random(chk, rng, 4000 if thorough else 800, 30000 if thorough else 4000)
-    recs += record_services(chk, rng, 60 if thorough else 12, obs)
+    recs = record_random(chk, rng, 8000 if thorough else 2000, 60000 if thorough else 10000)
+    recs += record_services(chk, rng, 60 if thorough else 16, obs)
     chk.extra["recorded"] = dict(collections.Counter(t["k"] for t in recs))
     chk.extra["recorded_by_label"] = dict(collections.Counter(t["label"] for t in recs if t["k"] != "enc"))
     validate(chk, recs, "T", obs)
